@@ -57,7 +57,7 @@ struct Gen {
 			c.lo = numstr(lo[j]); c.up = numstr(up[j]);
 			// most columns get an objective sign that cannot run off to infinity (unbounded LPs walk the whole
 			// 13-stage ladder and are expensive); fam 9 and 1 column in 5 keep an arbitrary sign
-			if (fam != 9 && !r.chance(1, 5)) { Q cv; parse_q(c.obj, cv); int want = 0;   // sign of c in minimisation form that is safe
+			if (fam != 9 && !r.chance(1, n > 20 ? 80 : 5)) { Q cv; parse_q(c.obj, cv); int want = 0;   // sign of c in minimisation form that is safe
 				if (lo[j].fin() && !up[j].fin()) want = 1; else if (!lo[j].fin() && up[j].fin()) want = -1; else if (!lo[j].fin() && !up[j].fin()) want = 2;
 				if (want == 2) c.obj = "0"; else if (want != 0) { Q mf = Q(L.objsense) * cv; if ((want > 0 && mf < 0) || (want < 0 && mf > 0)) { cv = -cv; c.obj = cv.get_str(); } } }
 			// a point inside the bounds
@@ -221,6 +221,9 @@ void profile_resolve(Gen &g) {
 	p.lps.push_back(g.gen_lp(0, g.longrun ? 9 : 6, g.longrun ? 9 : 6));
 	Op cr = g.gen_create(0, 1); if (cr.s("how") == "empty") g.set(cr, "how", "load"); p.ops.push_back(cr);
 	int np = r.range(0, 2); for (int k = 0; k < np; k++) { Op o = g.gen_param(0); g.seti(o, "o", 0); p.ops.push_back(o); }
+	// every pricing rule keeps its own state between calls (norms, reference frames, buckets): half of the plans leave the defaults
+	if (r.chance(1, 2)) { Op o = g.mk(0, "param"); g.seti(o, "o", 0); g.set(o, "what", "dprice"); g.seti(o, "v", r.below(4)); p.ops.push_back(o); }
+	if (r.chance(1, 2)) { Op o = g.mk(0, "param"); g.seti(o, "o", 0); g.set(o, "what", "pprice"); g.seti(o, "v", r.below(4)); p.ops.push_back(o); }
 	int rounds = g.longrun ? r.range(10, 40) : r.range(2, 8);
 	auto direct = [&]() { Op o = g.gen_solve(0, r.chance(1, 8) ? "exact" : r.chance(1, 2) ? "primal" : "dual"); g.seti(o, "o", 0); o.a.erase("warm"); return o; };
 	p.ops.push_back(direct());
@@ -302,6 +305,31 @@ void profile_solve(Gen &g) {
 	}
 	p.ops.push_back(g.gen_solve(0, "exact"));
 	p.knobs["indep"] = "0";
+}
+
+// partial: one wide (more than 50 non-basic columns) or tall (more than 50 rows) LP driven directly with the rational simplex in
+// several configurations - partial pricing with several groups, the other rules, scaling on/off, warm starts (C04, C01)
+void profile_partial(Gen &g) {
+	Plan &p = g.p; Rng &r = g.r;
+	bool wide = r.chance(2, 3);
+	p.lps.push_back(wide ? g.gen_lp(0, 130, 6, 56, 2) : g.gen_lp(0, 6, 120, 2, 56));
+	int nc = r.range(3, 5); std::vector<std::vector<Op>> per(nc);
+	for (int c = 0; c < nc; c++) {
+		Op cr = g.mk(c, "create"); g.seti(cr, "lp", 0); static const char *h[] = {"build", "build1", "colwise", "load"}; g.set(cr, "how", h[r.below(4)]); per[c].push_back(cr);
+		bool partial = c < 2 || r.chance(1, 2);
+		{ Op o = g.mk(c, "param"); g.seti(o, "o", 0); g.set(o, "what", wide ? "pprice" : "dprice"); g.seti(o, "v", partial ? (wide ? 3 : 2) : (long)r.below(4)); per[c].push_back(o); }
+		{ Op o = g.mk(c, "param"); g.seti(o, "o", 0); g.set(o, "what", "scaling"); g.seti(o, "v", c == 0 ? 0 : (long)r.below(2)); per[c].push_back(o); }
+		if (c == 1 || r.chance(1, 3)) { Op o = g.mk(c, "basis"); g.seti(o, "o", 0); g.set(o, "what", "make"); g.seti(o, "pat", r.below(100000)); per[c].push_back(o);
+			Op l = g.mk(c, "basis"); g.seti(l, "o", 0); g.set(l, "what", r.chance(1, 2) ? "load" : "loadarray"); g.seti(l, "k", 0); per[c].push_back(l); }
+		int ns = r.range(1, 2);
+		for (int k = 0; k < ns; k++) { Op s = g.gen_solve(c, wide ? (k == 0 || r.chance(2, 3) ? "primal" : "dual") : (k == 0 || r.chance(2, 3) ? "dual" : "primal")); g.seti(s, "o", 0); s.a.erase("warm");
+			if (g.faults && r.chance(1, 4)) g.add_interruption(s); per[c].push_back(s);
+			if (k == 0 && ns > 1 && r.chance(1, 2)) { Op e = g.mk(c, "edit"); g.seti(e, "o", 0); g.set(e, "what", "chgobj"); g.seti(e, "j", r.below(200)); g.set(e, "v", g.num()); per[c].push_back(e); } }
+	}
+	// the edits above would make the clients' LPs differ: keep them only for client-private objects (each client created its own)
+	std::vector<size_t> pos(nc, 0); size_t left = 0; for (auto &v : per) left += v.size();
+	while (left) { int c = (int)r.below(nc); if (pos[c] >= per[c].size()) continue; p.ops.push_back(per[c][pos[c]++]); left--; }
+	p.knobs["indep"] = "0"; p.knobs["fresh"] = "0";
 }
 
 // C04: one LP driven by several clients in different configurations, interleaved
@@ -437,6 +465,7 @@ Plan make_plan(const std::string &profile, uint64_t seed, const Args &opts) {
 	else if (profile == "resolve") profile_resolve(g);
 	else if (profile == "grow") profile_grow(g);
 	else if (profile == "bases") profile_bases(g);
+	else if (profile == "partial") profile_partial(g);
 	else if (profile == "cli") profile_cli(g);
 	else if (profile == "reader") profile_io(g, true);
 	else profile_hist(g, false, false);
